@@ -415,7 +415,7 @@ def posteriors(ck):
     N = ck.n(40, 400)
     for ci in range(N):
         k = int(rng.integers(1, 6))
-        prec = float(rng.choice([0.5, 1.0, 4.0, 16.0, 50.0, 100.0, 256.0, 2000.0]))
+        prec = float(rng.choice([0.1, 0.5, 1.0, 2.0, 4.0, 8.0, 15.0, 16.0, 50.0, 100.0, 256.0, 2000.0]))
         m = rng.normal(size=(k, 3))
         m = (m.T / np.sqrt((m ** 2).sum(1))).T
         nullc = bool(rng.random() < 0.3)
@@ -439,6 +439,29 @@ def posteriors(ck):
             wd = v.weighted_density(x)
             md = v.mixture_density(x)
             wl_mean = np.exp(lwl.T - lwl.mean(1)).T      # the pre-fix shift, only used to name the failure
+            dens = v.density_per_component(x)
+        # definition: von Mises-Fisher density on the sphere  kappa exp(kappa mu.x) / (4 pi sinh kappa); uniform 1/(4 pi) for the null class
+        lsinh = math.log(math.sinh(prec)) if prec < 700 else prec - math.log(2)
+        want_d = np.exp(math.log(prec) - math.log(4 * math.pi) - lsinh + prec * (x @ m.T))
+        if nullc:
+            want_d = np.hstack([np.full((len(x), 1), 1 / (4 * math.pi)), want_d])
+        cls_k = "kappa<=16" if prec <= 16 else "kappa>16"
+        if dens.shape != want_d.shape or not np.allclose(dens, want_d, rtol=1e-9, atol=1e-300):
+            i, c = np.unravel_index(int(np.argmax(np.abs(dens - want_d) / (want_d + 1e-300))), want_d.shape) if dens.shape == want_d.shape else (0, 0)
+            ck.fail("vmf-density/%s/not-the-von-mises-fisher-density" % cls_k,
+                    "VonMisesMixture(precision=%g).density_per_component[%d,%d] = %r but kappa exp(kappa mu.x) / (4 pi sinh kappa) = %r" % (
+                        prec, i, c, float(dens[i, c]) if dens.shape == want_d.shape else float("nan"), float(want_d[i, c])),
+                    {"k": k, "precision": prec, "means": m.tolist(), "null_class": nullc, "x": x.tolist()})
+        if prec <= 64:          # total mass over the sphere: Gauss-Legendre in the polar cosine x uniform in azimuth
+            uu, wu = np.polynomial.legendre.leggauss(96)
+            ph = (np.arange(192) + 0.5) * (2 * math.pi / 192)
+            U, PH = np.meshgrid(uu, ph, indexing="ij")
+            pts = np.stack([np.sqrt(1 - U ** 2) * np.cos(PH), np.sqrt(1 - U ** 2) * np.sin(PH), U], -1).reshape(-1, 3)
+            mass = (v.density_per_component(pts).reshape(96, 192, -1) * wu[:, None, None]).sum((0, 1)) * (2 * math.pi / 192)
+            if np.max(np.abs(mass - 1)) > 1e-7:
+                ck.fail("vmf-density/%s/does-not-integrate-to-one" % cls_k,
+                        "VonMisesMixture(precision=%g): component densities integrate to %s over the sphere" % (prec, mass.tolist()),
+                        {"k": k, "precision": prec, "means": m.tolist(), "null_class": nullc})
         ck.count(("vmf", m.tobytes(), x.tobytes(), prec, nullc, w.tobytes()),
                  bucket="vmf:%s%s" % ("prec>=2000" if prec >= 2000 else "moderate", ":zero-weight" if zero_w else ""))
         rep = {"k": k, "precision": prec, "means": m.tolist(), "weights": w.tolist(), "null_class": nullc, "x": x.tolist()}
@@ -1411,6 +1434,45 @@ def lifecycle(ck):
                         dict(repp, perm=pj.tolist()))
             if np.array_equal(pj, np.arange(kk)) and abs(pp[j] - base) > 1e-10 * abs(base):
                 ck.fail("conditional-posterior/identity-permutation-differs", "perm = identity differs from perm = None", repp)
+        # ---- VBGMM._Mstep with DIFFERENT priors per component: definition, and relabelling by every permutation
+        pri = dict(pm=pm.astype(float), pw=np.arange(1, kk + 1) / 2.0,
+                   ps=np.array([rand_spd_int(rng, dim) / 4.0 + (1 + c) * np.eye(dim) for c in range(kk)]),
+                   pd=dim + 1.0 + np.arange(kk), psh=0.5 + np.arange(kk) / 4.0)
+        lk = rng.integers(0, 9, (len(zz), kk)).astype(float) + 0.125
+        lk = (lk.T / lk.sum(1)).T
+
+        def vb_mstep(order):
+            v = bgmm.VBGMM(kk, dim)
+            v.set_priors(pri["pm"][order].copy(), pri["pw"][order].copy(), pri["ps"][order].copy(), pri["pd"][order].copy(), pri["psh"][order].copy())
+            v._Mstep(xx.copy(), lk[:, order].copy())
+            return {"means": np.asarray(v.means), "scale": np.asarray(v.scale), "weights": np.asarray(v.weights), "dof": np.asarray(v.dof),
+                    "shrinkage": np.asarray(v.shrinkage)}
+        ident = np.arange(kk)
+        base_fit = vb_mstep(ident)
+        ck.count(("vb-mstep", kk, dim, ci), bucket="vbgmm-mstep-per-component-priors:k%d" % kk)
+        repv = {"k": kk, "dim": dim, "x": xx.tolist(), "like": lk.tolist(), "prior_means": pri["pm"].tolist(), "prior_weights": pri["pw"].tolist(),
+                "prior_scale": pri["ps"].tolist(), "prior_dof": pri["pd"].tolist(), "prior_shrinkage": pri["psh"].tolist(), "case": ci}
+        # definition (normal-Wishart update, re-stated): per component c
+        for c in range(kk):
+            pop_c = lk[:, c].sum()
+            em = lk[:, c] @ xx / pop_c
+            dxc = xx - em
+            cov = np.linalg.inv(pri["ps"][c]) + (dxc.T * lk[:, c]) @ dxc + np.outer(em - pri["pm"][c], em - pri["pm"][c]) * pri["psh"][c] * pop_c / (pri["psh"][c] + pop_c)
+            want = {"means": (lk[:, c] @ xx + pri["pm"][c] * pri["psh"][c]) / (pri["psh"][c] + pop_c), "scale": np.linalg.inv(cov),
+                    "weights": pri["pw"][c] + pop_c, "dof": pri["pd"][c] + pop_c, "shrinkage": pri["psh"][c] + pop_c}
+            for key in want:
+                if not np.allclose(base_fit[key][c], want[key], rtol=1e-9, atol=1e-12):
+                    ck.fail("vbgmm-mstep/per-component-priors/%s-not-the-normal-wishart-update" % key,
+                            "VBGMM._Mstep %s of component %d = %s, normal-Wishart update with that component's own prior = %s" % (
+                                key, c, np.asarray(base_fit[key][c]).tolist(), np.asarray(want[key]).tolist()), dict(repv, component=c))
+        for pj in perm:
+            got = vb_mstep(pj)
+            for key in got:
+                if not np.allclose(got[key], base_fit[key][pj], rtol=1e-9, atol=1e-12):
+                    ck.fail("vbgmm-mstep/per-component-priors/relabelling-inconsistent",
+                            "VBGMM._Mstep with components (memberships and priors) relabelled by %s: %s is not the relabelled result" % (pj.tolist(), key),
+                            dict(repv, perm=pj.tolist()))
+                    break
     ck.section("lifecycle", cases=N)
 
 
